@@ -26,6 +26,17 @@ func VerifC08Notify(k int) {
 		returned++
 	}
 	verifrt.Assert(returned == k, "every request returns (state-change notifications never block request processing)")
+	// requests would succeed again: after the timeout (30s) a bounded number of successful requests closes the breaker
+	verifrt.Advance(2 * time.Minute)
+	verifForceOK = true
+	last := 0
+	for i := 0; i < 3; i++ {
+		rec := verifNewRecorder()
+		verifServe(lb, rec, rec.finish, verifRequest("10.1.2.3:4711"))
+		last = rec.status
+	}
+	verifForceOK = false
+	verifrt.Assert(lb.circuitBreaker.State() == circuitbreaker.StateClosed && last == http.StatusOK, "after timeout plus a bounded number of successful requests the breaker is closed and requests are admitted (system level)")
 	st := lb.circuitBreaker.State()
 	verifrt.Assert(st == circuitbreaker.StateClosed || st == circuitbreaker.StateOpen || st == circuitbreaker.StateHalfOpen, "breaker state is readable after the sequence")
 	_ = http.StatusOK
